@@ -56,6 +56,21 @@ def is_real(f, R, e, depth=0):
         return 'hit.score'
     if e[0] == 'call' and e[1].endswith(('ScoringMatrix::score_position', 'Hit::score')):
         return 'rescored'
+    # opt.map_or(default, |h| h.score): exact when both the default and the closure's result are exact
+    b = m(('call~', 'Option::map_or', ('_', '$d', ('agg', '$tag', '_'))), e)
+    if b is not None and isinstance(b['$tag'], tuple) and b['$tag'][0] == 'closure' and R.db is not None:
+        k1 = is_real(f, R, b['$d'], depth + 1)
+        cf = R.db.fns.get(b['$tag'][1])
+        k2 = None
+        if cf is not None:
+            from . import common
+            ce = common.return_expr_single_path_allow(cf)
+            if ce is not None:
+                cn = norm(ce)
+                if cn[0] == 'fld' and cn[2] == 'score':
+                    k2 = 'hit.score'
+        if k1 and k2:
+            return f'{k1}|{k2}'
     if e[0] == 'v' and depth < 3:
         ds = f.defs().get(e[1], [])
         kinds = set()
@@ -113,7 +128,7 @@ def analyse(db, ctx, which, ids):
     if f is None:
         ctx.fail(ids['unwrap'], f'Scanner::{which}', 'anchor', 'reason=anchor-missing: Scanner::' + which + ' body not found')
         return None
-    R = X.Rec(f)
+    R = X.Rec(f, db)
     ctx.analysed(f)
 
     # ---- block scoring call
@@ -206,7 +221,7 @@ def analyse(db, ctx, which, ids):
         t = f.term(bi)
         if t['k'] != 'switch' or t.get('discr_ty') != 'bool':
             continue
-        de = R.operand(t['discr'])
+        de = R.at(bi).operand(t['discr'])      # recovered at the branch: a condition bound to a boolean variable first is seen through
         rel = G.as_relation(de, True)
         if rel[0] in ('ge', 'gt', 'le', 'lt', 'eq', 'ne'):
             comps.append((rel[0], norm(rel[1]), norm(rel[2]), t['span']))
